@@ -256,6 +256,28 @@ def run(tier="quick", seed=0, jobs=16):
                     rep.violation(f"{it['node']}({w['arg']})", f"{it['node']} takes the individual-level argument {w['arg']}: two members of one {it['group']} with {w['arg']}={w['member1'][w['arg']]} / {w['member2'][w['arg']]} get {vals}", {"date": it["date"], "node": it["node"], "group": it["group"], "witness": w, "obligation": it["name"]}, failing_input_found=bool(bad))
             else:
                 rep.violation(it["name"], it["detail"], {"obligation": it["name"], "date": it["date"]}, True)
+    # IN: the classification above treats group-suffixed INPUT columns as constant within the unit;
+    # that is what the real input check guarantees -- for every grouping, not only hh
+    import pandas as pd
+
+    from _gettsim.config import SUPPORTED_GROUPINGS
+    from _gettsim.interface import _fail_if_group_variables_not_constant_within_groups
+
+    rep.functions.add("src/_gettsim/interface.py:436 _fail_if_group_variables_not_constant_within_groups")
+    for g in SUPPORTED_GROUPINGS:
+        ok = {}
+        for label, vals, must_raise in (("non-constant", [1.0, 2.0, 5.0], True), ("constant", [1.0, 1.0, 5.0], False)):
+            data = {f"{g}_id": pd.Series([0, 0, 1]), f"x_{g}": pd.Series(vals), "p_id": pd.Series([0, 1, 2])}
+            try:
+                _fail_if_group_variables_not_constant_within_groups(data)
+                raised = False
+            except ValueError:
+                raised = True
+            ok[label] = raised == must_raise
+        good = all(ok.values())
+        rep.ob(f"IN input check: a column x_{g} that varies within {g}_id is rejected, a constant one is accepted", "discharged" if good else "refuted", "exhaustive-run", 0, "src/_gettsim/interface.py:436", "input-contract", str(ok))
+        if not good:
+            rep.violation(f"input-check:{g}", f"_fail_if_group_variables_not_constant_within_groups accepts a column x_{g} with several values within one {g}_id (values [1.0, 2.0] in group 0): group-level columns computed from it inherit several values per group", {"obligation": f"IN {g}", "data": {f"{g}_id": [0, 0, 1], f"x_{g}": [1.0, 2.0, 5.0]}}, True)
     rep.functions.add("every scalar rule with a group suffix in the default-target DAG (see obligations)")
     rep.samples = rep.obligations[:3] + [o for o in rep.obligations if o["status"] == "refuted"][:2]
     return rep.finish({"date_classes": len(classes), "group_level_node_instances": n_nodes, "distinct_obligations": len(items)})
